@@ -87,8 +87,8 @@ def run(ctx, prog):
     A.require('OneOrMany::from<Vec>/singleton-normalised-to-One', paths, r_fv, replay=REPLAY)
 
 
-def serde_and_change(ctx, prog):
-    A = Auditor(ctx, prog)
+def serde_and_change(ctx, prog, only=None):
+    A = Auditor(ctx, prog, only=only)
     # OneOrSet's array form is read through OrderedSet's own Deserialize (duplicate keys refused), then checked for emptiness
     f = prog.one(r'(^|::)deserialize_non_empty_set$')
     paths, ex = A.paths(f)
@@ -156,6 +156,20 @@ def serde_and_change(ctx, prog):
         return None
     A.require('OrderedSet::change/no-order-breaking-vector-operation', paths, r_ch, replay=REPLAY)
 
+
+    # remove: the entry found by key is taken out with the order-preserving Vec::remove (the set is *ordered*: what remains keeps its
+    # order, which fragment-only queries - "first match" - depend on)
+    f = prog.one(r'ordered_set::<impl at [^>]*>::remove$')
+    paths, ex = A.paths(f, inline=r'ordered_set::<impl at [^>]*>::remove::\{closure', allow_bound=True)
+
+    def r_rm(p):
+        if p.kind != 'return':
+            return None
+        bad = [c for c in p.calls if re.search(ORDER_BREAKING + r'|(^|::)(truncate|drain|pop|clear|split_off)$', c.name)]
+        if bad:
+            return 'entry taken out with %s: the remaining entries do not keep their order' % bad[0].name.split('::')[-1]
+        return None
+    A.require('OrderedSet::remove/order-preserving-removal', paths, r_rm, replay=[REPLAY, {'scenario': 'document_ops', 'cex': {'only': '[order]'}}])
 
     # replace / update are `change` with a key predicate and nothing else (no pre-check, no early return)
     def key_of(t, who):
@@ -243,10 +257,18 @@ def serde_and_change(ctx, prog):
     from execu import VOver
     def m_replace(ex_, st, fr, name, args, dty):
         # std::mem::replace(&mut x, new): returns what x held and stores new (precise, so that the match on the old value is exact)
-        if not isinstance(args[0], VRef):
+        if isinstance(args[0], VRef):
+            cell, path = args[0].cell, args[0].path
+        elif isinstance(args[0], VSym):
+            # an opaque pointer argument (e.g. `self`): the same backing cell the executor gives its dereference
+            from execu import deref_ty
+            cell, path = 'sym:' + term_str(args[0].term), ()
+            if cell not in st.mem:
+                st.mem[cell] = VSym(('deref', args[0].term), deref_ty(args[0].ty))
+        else:
             return None
-        old = ex_.load(st, args[0].cell, args[0].path)
-        ex_.store(st, args[0].cell, args[0].path, args[1])
+        old = ex_.load(st, cell, path)
+        ex_.store(st, cell, path, args[1])
         return [(st, old, 'ok', '')]
     f = prog.one(r'one_or_set::<impl at [^>]*>::append$')
     paths, ex = A.paths(f, extra_models=[(re.compile(r'(^|::)mem::replace$'), m_replace)])
@@ -274,6 +296,53 @@ def serde_and_change(ctx, prog):
             return 'the new set is not [old element, new element]'
         return None
     A.require('OneOrSet::append/refused-leaves-it-untouched-accepted-appends-at-the-end', paths, r_osa, replay={'scenario': 'collections', 'cex': {'only': '[append]'}})
+
+    # OrderedSet::prepend: refused (key present) => nothing is touched; accepted => inserted at position 0, nothing else moves
+    f = prog.one(r'ordered_set::<impl at [^>]*>::prepend$')
+    paths, ex = A.paths(f, same_file=True) if True else (None, None)
+
+    def r_pre(p):
+        if p.kind != 'return':
+            return None
+        bad = [c for c in p.calls if re.search(ORDER_BREAKING + r'|(^|::)(truncate|drain|pop|clear|split_off)$', c.name)]
+        if bad:
+            return 'prepend moves entries around with %s' % bad[0].name.split('::')[-1]
+        ins = [c for c in p.calls if re.search(r'Vec(<.*>)?::insert$', c.name)]
+        push = [c for c in p.calls if re.search(r'Vec(<.*>)?::push$', c.name)]
+        if isinstance(p.val, VBool) and p.implies(z3.Not(p.val.e)):
+            return 'prepend returned false but changed the set' if (ins or push) else None
+        if isinstance(p.val, VBool) and p.implies(p.val.e):
+            if push or len(ins) != 1:
+                return 'accepted element not inserted exactly once at the front'
+            pos = ins[0].argvals[1] if ins[0].argvals else None
+            if not (isinstance(pos, VInt) and p.implies(pos.e == 0)) or strip(ins[0].args[2]) != ('leaf', 'item'):
+                return 'accepted element not inserted at position 0'
+            return None
+        return 'result does not follow the membership test'
+    A.require('OrderedSet::prepend/refused-untouched-accepted-at-the-front', paths, r_pre, replay=REPLAY)
+
+    # OneOrMany::push: an empty Many becomes One(value) - decided by emptiness, not by anything else (capacity, history)
+    f = prog.one(r'one_or_many::<impl at [^>]*>::push$')
+    paths, ex = A.paths(f, extra_models=[(re.compile(r'(^|::)mem::replace$'), m_replace)])
+
+    def r_push(p):
+        if p.kind != 'return':
+            return 'panic ' + p.msg
+        cap = [c for c in p.calls if re.search(r'::capacity$|::len$', c.name)]
+        if cap:
+            return 'push decides by %s, not by emptiness' % cap[0].name.split('::')[-1]
+        ie = [c for c in p.calls if re.search(r'Vec(<.*>)?::is_empty$', c.name)]
+        vp = [c for c in p.calls if re.search(r'Vec(<.*>)?::push$', c.name)]
+        mem = p.st.mem.get('sym:self')
+        mt = ex.to_term(p.st, mem) if isinstance(mem, (VOver, VAgg)) else None
+        if ie and p.took(ie[0].ret, 'true'):
+            if vp or mt is None or "'One'" not in repr(mt) or not mentions(mt, r'^value$'):
+                return 'pushing onto an empty Many does not give One(value)'
+        elif ie and p.took(ie[0].ret, 'false'):
+            if len(vp) != 1 or strip(vp[0].args[1]) != ('leaf', 'value'):
+                return 'pushing onto a non-empty Many does not append the value'
+        return None
+    A.require('OneOrMany::push/empty-many-becomes-one', paths, r_push, replay=REPLAY)
 
     # OneOrMany::from_iter: exactly one element gives One on every route - the route that collects into a Vec normalises through
     # From<Vec<T>> (audited above), it does not wrap the Vec in Many itself
@@ -308,7 +377,8 @@ def kani_part(ctx):
     thorough = ['c19_append_0', 'c19_append_1', 'c19_append_3', 'c19_prepend_0', 'c19_prepend_1', 'c19_prepend_2',
                 'c19_remove_1', 'c19_remove_3', 'c19_from_vec_3']
     names = quick + (thorough if ctx.tier == 'thorough' else [])
-    specs = [dict(harness=h, timeout_s=2700, functions=fn, must_fail=h.endswith('must_fail'),
+    # (length-0 harnesses: a duplicate argument cannot exist for the empty set, that witness is unsatisfiable by design)
+    specs = [dict(harness=h, timeout_s=2700, functions=fn, must_fail=h.endswith('must_fail'), allow_unsat_cover=h.endswith('_0'),
                   bounds='OrderedSet<u8> (KV for the projection-key instance) of the concrete length in the harness name, all duplicate-free contents, all arguments') for h in names]
     res = kanirun.run_many(specs)
     kanirun.judge(ctx, specs, res, 'c19')
